@@ -61,8 +61,21 @@ def run(ctx, replay):
     c = s.get("counters") or {}
     if not s.get("infra_errors") and not (c.get("runs:urls") and c.get("runs:urls-tls-setup-broken")):
         raise vcheck.Infra("the harness ran no behaviour with URL sources: %s" % c)
-    res = ctx.tlc("TraceFetch", "TraceFetch.cfg", workers=1, files={"trace.ndjson": trace}, timeout=1800, name="TraceFetch")
-    vcheck.trace_verdict(ctx, res, trace, trace + ".in", check="trace-fetch", describe=lambda ev: "fetch:%s:n=%d" % (ev.get("schedule"), len(ev["srcout"])))
+    # the runs with URL sources and the others are decided separately (side by side), so that the rejections reported
+    # for one kind do not crowd out those of the other
+    parts = {"local": trace + ".local", "urls": trace + ".urls"}
+    outs = {k: open(p, "w") for k, p in parts.items()}
+    for line in open(trace):
+        outs["urls" if str(json.loads(line).get("schedule", "")).startswith("urls") else "local"].write(line)
+    for f in outs.values():
+        f.close()
+    with concurrent.futures.ThreadPoolExecutor(max_workers=2) as ex:
+        futs = {k: ex.submit(ctx.tlc, "TraceFetch", "TraceFetch.cfg", workers=1, files={"trace.ndjson": p}, timeout=1800, name="TraceFetch(%s)" % k)
+                for k, p in parts.items()}
+        concurrent.futures.wait(list(futs.values()))
+    for k, p in parts.items():
+        vcheck.trace_verdict(ctx, futs[k].result(), p, trace + ".in", check="trace-fetch",
+                             describe=lambda ev: "fetch:%s:n=%d" % (ev.get("schedule"), len(ev["srcout"])))
     # whole runs against Pprof.tla: every source fetched once, the Symbolizer sees the bag sum of whatever succeeded,
     # an error only when nothing was fetched
     pipeline(ctx, kinds=("config", "fetch", "sym", "error"))
